@@ -19,6 +19,7 @@ Section Persist.
 Variable S : Type.
 Variable react : S -> mid -> mstate -> json -> option mstate * list json.
 Variable decode_src : json -> option S.
+Variable resolves : S -> bool.
 Variable src_eqb : S -> S -> bool.
 Variable ord : forall A : Type, list (mid * A) -> list (mid * A).
 Hypothesis ord_perm : forall A l, Permutation (ord A l) l.
@@ -28,18 +29,18 @@ Local Notation crew := (crew S).
 Local Notation mach := (mach S).
 Local Notation chg := (chg S).
 Local Notation entry := (entry S).
-Local Notation present := (present S react decode_src).
-Local Notation run_list := (run_list S react decode_src).
-Local Notation run_machines := (run_machines S react decode_src ord).
-Local Notation process := (process S react decode_src ord).
-Local Notation process_msg := (process_msg S react decode_src src_eqb ord).
+Local Notation present := (present S react decode_src resolves).
+Local Notation run_list := (run_list S react decode_src resolves).
+Local Notation run_machines := (run_machines S react decode_src resolves ord).
+Local Notation process := (process S react decode_src resolves ord).
+Local Notation process_msg := (process_msg S react decode_src resolves src_eqb ord).
 Local Notation get_changed := (get_changed S src_eqb ord).
-Local Notation set_machine := (set_machine S).
+Local Notation set_machine := (set_machine S resolves).
 Local Notation delete_machine := (delete_machine S).
-Local Notation hstep := (hstep S react decode_src src_eqb ord).
-Local Notation run_history := (run_history S react decode_src src_eqb ord).
-Local Notation boot := (boot S ord).
-Local Notation boot_from := (boot_from S ord).
+Local Notation hstep := (hstep S react decode_src resolves src_eqb ord).
+Local Notation run_history := (run_history S react decode_src resolves src_eqb ord).
+Local Notation boot := (boot S resolves ord).
+Local Notation boot_from := (boot_from S resolves ord).
 
 (** ** the consumer, per machine id *)
 Definition fold_entry (r : chg) (e : option entry) : option entry :=
@@ -103,7 +104,7 @@ Definition pend (mc : option mach) (ch : option chg) (e : option entry) : option
   match ch with None => e | Some c0 => fold_entry (report4 mc c0) e end.
 
 Definition inv4 (mc : option mach) (ch : option chg) (pv : option chg) (e : option entry) : Prop :=
-  option_map (view_of_entry S) (pend mc ch e) = option_map (view_of_mach S) mc
+  option_map (view_of_entry S resolves) (pend mc ch e) = option_map (view_of_mach S) mc
   /\ (forall r, pv = Some r -> c_deleted S r = false /\ fold_entry r e = e)
   /\ (forall c0, ch = Some c0 -> c_deleted S c0 = true -> mc = None -> c_src S c0 = None).
 
@@ -132,8 +133,9 @@ Ltac crush :=
 (** what [set_machine] does to the live machine and to the cached change *)
 Definition set_mach (old : option mach) (src : option S) (st' : option mstate) : mach :=
   match old with
-  | Some mc => mk_mach (or_else src (m_src S mc)) (match st' with Some s => s | None => m_state S mc end)
-  | None => mk_mach src (match st' with Some s => s | None => default_state end)
+  | Some mc => mk_mach (match src with Some _ => resolved S resolves src | None => m_src S mc end)
+                       (match st' with Some s => s | None => m_state S mc end)
+  | None => mk_mach (resolved S resolves src) (match st' with Some s => s | None => default_state end)
   end.
 Definition set_chg (och : option chg) (src : option S) (st' : option mstate) : chg :=
   let ch := match och with Some ch => ch | None => no_chg S end in
@@ -197,9 +199,9 @@ Lemma set_machine_lookup c m src st :
 Proof.
   intros st' old touched. unfold SioCrew.set_machine. fold st' old. fold touched.
   assert (EM : match old with
-               | Some mc => mk_mach (or_else src (m_src S mc))
+               | Some mc => mk_mach (match src with Some _ => resolved S resolves src | None => m_src S mc end)
                                     (match st' with Some s => s | None => m_state S mc end)
-               | None => mk_mach src (match st' with Some s => s | None => default_state end)
+               | None => mk_mach (resolved S resolves src) (match st' with Some s => s | None => default_state end)
                end = set_mach old src st') by reflexivity.
   rewrite EM.
   destruct touched; simpl; (split; [|split; [|split]]); auto; intros m'; rewrite ?aget_aset; auto;
@@ -236,7 +238,7 @@ Proof.
   unfold cache_get. apply (inv4_record _ _ _ _ st) in I. exact I.
 Qed.
 
-Lemma do_op_inv c store op : inv c store -> inv (do_op S c op) store.
+Lemma do_op_inv c store op : inv c store -> inv (do_op S resolves c op) store.
 Proof.
   unfold do_op. intros I.
   assert (I1 : inv (fold_left (fun c0 u => set_machine c0 (fst u) (u_src S (snd u)) (u_state S (snd u)))
@@ -466,6 +468,34 @@ Proof.
     + apply P. exact H.
 Qed.
 
+(** what the consumer holds for a machine with a cached change after
+    [get_changed]: the report of that change folded into its entry, whether
+    the report was sent or suppressed (a suppressed report equals the
+    previous one, and folding that one again changes nothing) *)
+Lemma get_changed_fold c store c' out tm m ch :
+  inv c store -> get_changed c = (c', out, tm) -> aget m (cache S c) = Some ch ->
+  aget m (stdio_fold S store out) = fold_entry (report4 (aget m (machines S c)) ch) (aget m store).
+Proof.
+  intros I H Ec. unfold SioCrew.get_changed in H.
+  set (keys := dedup (map fst (ord chg (cache S c)))) in *.
+  set (reports := map (fun m => (m, report_of S c m (cache_get S c m))) keys) in *.
+  destruct (suppress S src_eqb (previous S c) reports) as [prev o] eqn:Hs.
+  injection H as <- <- <-.
+  assert (NDk : NoDup (map fst reports)).
+  { unfold reports. rewrite map_map. simpl. rewrite map_id. apply dedup_nodup. }
+  destruct (suppress_spec _ _ _ _ NDk Hs) as (A & B & C & D).
+  assert (R : aget m reports = Some (report4 (aget m (machines S c)) ch)).
+  { unfold reports. rewrite aget_map_keys. unfold keys. rewrite cache_keys.
+    unfold cache_get. rewrite Ec. reflexivity. }
+  rewrite (stdio_fold_aget _ _ C), A, R.
+  set (r := report4 (aget m (machines S c)) ch) in *.
+  unfold out_of. destruct (c_deleted S r) eqn:Ed; [reflexivity|].
+  destruct (I m) as (_ & P & _).
+  destruct (aget m (previous S c)) as [old|] eqn:Ep; [|reflexivity].
+  destruct (chg_eqb S src_eqb r old) eqn:Eq; [|reflexivity].
+  apply chg_eqb_sound in Eq. subst old. destruct (P _ eq_refl) as [_ F]. symmetry. exact F.
+Qed.
+
 (** ** histories *)
 Lemma process_msg_inv fuel c store msg c1 r :
   inv c store -> process_msg fuel c msg = Done (c1, r) ->
@@ -505,7 +535,7 @@ Qed.
 
 (** the store with the pending (not yet reported) changes applied *)
 Definition pending_view (c : crew) (store : list (mid * entry)) (m : mid) : option (option S * mstate) :=
-  option_map (view_of_entry S) (pend (aget m (machines S c)) (aget m (cache S c)) (aget m store)).
+  option_map (view_of_entry S resolves) (pend (aget m (machines S c)) (aget m (cache S c)) (aget m store)).
 
 Theorem store_tracks_crew_pending : forall fuel h c store,
   run_history fuel (init_crew S, []) h = Done (c, store) ->
@@ -542,7 +572,7 @@ Qed.
 
 Theorem store_tracks_crew : forall fuel h c store,
   run_history fuel (init_crew S, []) h = Done (c, store) -> ends_with_msg h ->
-  forall m, store_view S store m = live_view S c m.
+  forall m, store_view S resolves store m = live_view S c m.
 Proof.
   intros fuel h c store H E m.
   pose proof (store_tracks_crew_pending _ _ _ _ H m) as V.
